@@ -45,7 +45,7 @@ func checkMidCase(c midCase, rec *Rec) error {
 	rec.NonTrivial(chi > omega)
 	rec.Labelf("chi-minus-omega=%d", chi-omega)
 	for _, rep := range []string{"dense", "sparse"} {
-		gr := reps(g)[rep]
+		gr := repOf(g, rep)
 		what := fmt.Sprintf("[%s, n=%d %v]", rep, g.N, clipEdges(g))
 		var got int
 		var col []int
